@@ -179,6 +179,9 @@ func (cw *chunkedWriter) Close() error {
 }
 
 func parseHexUint(v []byte) (n uint64, err error) {
+	if len(v) == 0 {
+		return 0, errors.New("empty hex number for chunk length")
+	}
 	for _, b := range v {
 		n <<= 4
 		switch {
@@ -192,6 +195,11 @@ func parseHexUint(v []byte) (n uint64, err error) {
 			return 0, errors.New("invalid byte in chunk length")
 		}
 		n |= uint64(b)
+	}
+	if len(v) > 16 {
+		// more than 16 hex digits do not fit in 64 bits (RFC 7230 4.1: recipients
+		// must anticipate large numerals and prevent overflow)
+		return 0, errors.New("http chunk length too large")
 	}
 	return
 }
